@@ -145,3 +145,129 @@ Example c20_witness :
                 f_container := Some [7; 7] |})%N
   = ([OErr 3%N; OOk 1; OOk 0; OOk 0], [OOk 0; OOk 1; OOk 2; OOk 0], Some (inl InvalidInput), Some 77%N).
 Proof. vm_compute. reflexivity. Qed.
+
+(* ==== added after the audit of 2026-10-02 (selftest/audit/REPORT-2026-10-02.md) ==== *)
+(* ------------------------------------------------------------------ audit A.1 / A.5 additions *)
+Require Import Cadence.Proofs.WireDefs.
+Require Import Cadence.Proofs.AuditS.
+
+(* core.rs: what the counters' addition IS - fetch_add, addition modulo 2^64.  A model whose
+   wadd were plain addition fails this theorem (and c20_wadd_wraps, c20_wadd_max_one) *)
+Theorem c20_wadd_is_add_mod : forall a b : N, wadd a b = ((a + b) mod 2 ^ 64)%N.
+Proof. exact wadd_is_add_mod. Qed.
+
+(* the result of an increment is always a 64-bit value *)
+Theorem c20_wadd_bounded : forall a b : N, (wadd a b < 2 ^ 64)%N.
+Proof. exact wadd_bounded_pow. Qed.
+
+(* it is the true sum while that fits, and the true sum minus 2^64 - one wrap, no panic - when
+   two 64-bit operands overflow *)
+Theorem c20_wadd_exact : forall a b : N, (a + b < 2 ^ 64)%N -> wadd a b = (a + b)%N.
+Proof. exact wadd_exact. Qed.
+Theorem c20_wadd_wraps : forall a b : N,
+  (a < 2 ^ 64)%N -> (b < 2 ^ 64)%N -> (2 ^ 64 <= a + b)%N -> wadd a b = (a + b - 2 ^ 64)%N.
+Proof. exact wadd_wraps. Qed.
+Example c20_wadd_max_one : wadd (2 ^ 64 - 1) 1 = 0%N.
+Proof. vm_compute. reflexivity. Qed.
+
+(* SocketStats::update spelled out: an accepted attempt adds the bytes written and one packet to
+   the sent counters, a refused one the bytes offered and one packet to the dropped counters,
+   each modulo 2^64; the other two counters are untouched *)
+Theorem c20_stats_update : forall st a,
+  update st a =
+  match at_res a with
+  | Some w => {| bytes_sent := (bytes_sent st + w) mod 2 ^ 64;
+                 packets_sent := (packets_sent st + 1) mod 2 ^ 64;
+                 bytes_dropped := bytes_dropped st; packets_dropped := packets_dropped st |}
+  | None => {| bytes_sent := bytes_sent st; packets_sent := packets_sent st;
+               bytes_dropped := (bytes_dropped st + at_len a) mod 2 ^ 64;
+               packets_dropped := (packets_dropped st + 1) mod 2 ^ 64 |}
+  end%N.
+Proof. exact update_spec. Qed.
+
+(* all four counters stay 64-bit values across one update (this is the statement c20_stats_wrap
+   was meant to make: its first disjunct, unconditionally) ... *)
+Theorem c20_stats_wf : forall st a,
+  (bytes_sent st < 2 ^ 64 /\ packets_sent st < 2 ^ 64 /\
+   bytes_dropped st < 2 ^ 64 /\ packets_dropped st < 2 ^ 64)%N ->
+  let st' := update st a in
+  (bytes_sent st' < 2 ^ 64 /\ packets_sent st' < 2 ^ 64 /\
+   bytes_dropped st' < 2 ^ 64 /\ packets_dropped st' < 2 ^ 64)%N.
+Proof. exact stats_wf_update. Qed.
+
+(* ... across any list of attempts ... *)
+Theorem c20_stats_wf_updates : forall (l : list attempt1) st,
+  (bytes_sent st < 2 ^ 64 /\ packets_sent st < 2 ^ 64 /\
+   bytes_dropped st < 2 ^ 64 /\ packets_dropped st < 2 ^ 64)%N ->
+  let st' := updates st l in
+  (bytes_sent st' < 2 ^ 64 /\ packets_sent st' < 2 ^ 64 /\
+   bytes_dropped st' < 2 ^ 64 /\ packets_dropped st' < 2 ^ 64)%N.
+Proof. exact stats_wf_updates. Qed.
+
+(* ... hence always, for a sink whose counters started at zero *)
+Theorem c20_stats_wf_from_zero : forall l : list attempt1,
+  let st := updates stats0 l in
+  (bytes_sent st < 2 ^ 64 /\ packets_sent st < 2 ^ 64 /\
+   bytes_dropped st < 2 ^ 64 /\ packets_dropped st < 2 ^ 64)%N.
+Proof. exact stats_wf_from_zero. Qed.
+
+(* a history that does wrap: 2^64 - 1 bytes sent, then 2 more, then a refused attempt *)
+Example c20_stats_wrap_witness :
+  let st := updates stats0 [ {| at_len := 2 ^ 64 - 1; at_res := Some (2 ^ 64 - 1) |};
+                             {| at_len := 2; at_res := Some 2 |};
+                             {| at_len := 7; at_res := None |} ]%N in
+  (bytes_sent st, packets_sent st, bytes_dropped st, packets_dropped st) = (1, 2, 7, 1)%N.
+Proof. vm_compute. reflexivity. Qed.
+
+(* builder.rs, the EXECUTED root: for the formatter f that `build` hands to format, call_hint
+   computes the hint without an arithmetic panic, the hint is hint_value f, and it is a capacity
+   String::with_capacity accepts *)
+Theorem c20_call_hint : forall cfg c f, build cfg c = Some (inr f) ->
+  (arg_bytes f + 10 * N.of_nat (mv_count (f_val f)) + N.of_nat (length (f_tags f)) + 40 < 2 ^ 63)%N ->
+  call_hint cfg c = Some (Some (hint_value f)) /\ (hint_value f < 2 ^ 63)%N.
+Proof. exact call_hint_ok. Qed.
+
+(* a hint is computed exactly for the calls that get as far as a line: the well-typed calls with
+   at least one value; an invalid call reports its error before any hint arithmetic *)
+Theorem c20_call_hint_defined : forall cfg c,
+  call_hint cfg c <> None <-> exists l, client_line cfg c = Some (inr l).
+Proof. exact call_hint_defined. Qed.
+Theorem c20_call_hint_defined_iff_value : forall cfg c,
+  call_hint cfg c <> None <->
+  exists v, to_value (k_kind c) (k_arg c) = Some (inr v) /\ mv_count v <> 0.
+Proof. exact call_hint_defined_iff_value. Qed.
+
+(* the exact answer of the root with no size hypothesis at all: the checked arithmetic panics
+   (Some None) exactly when the hint itself does not fit in 64 bits - the intermediate sums and
+   the `- 1` of tag_size_hint never fail on their own *)
+Theorem c20_size_hint_exact : forall f,
+  size_hint f = if (hint_value f <? 2 ^ 64)%N then Some (hint_value f) else None.
+Proof. exact size_hint_exact. Qed.
+Theorem c20_call_hint_exact : forall cfg c,
+  call_hint cfg c =
+  match build cfg c with
+  | Some (inr f) => Some (if (hint_value f <? 2 ^ 64)%N then Some (hint_value f) else None)
+  | _ => None
+  end.
+Proof. exact call_hint_exact. Qed.
+
+(* the same in terms of what the CALLER supplied (AuditS.call_bytes: bytes of the prefix, the key,
+   all tags - defaults and the call's own - and the container id in force): below 2^63 in total,
+   no call panics in the hint arithmetic *)
+Theorem c20_call_hint_never_panics : forall cfg c v,
+  to_value (k_kind c) (k_arg c) = Some (inr v) -> mv_count v <> 0 ->
+  (call_bytes cfg c + 10 * N.of_nat (mv_count v)
+     + N.of_nat (length (c_tags cfg ++ op_tags (k_ops c))) + 41 < 2 ^ 63)%N ->
+  exists h, call_hint cfg c = Some (Some h) /\ (h < 2 ^ 63)%N.
+Proof. exact call_hint_never_panics. Qed.
+
+(* non-vacuity: prefix with trailing dots, default and own tags, rate, timestamp, container id;
+   and an invalid call, for which no hint is computed *)
+Example c20_call_hint_witness :
+  let cfg := {| c_prefix := [97; 46; 46]; c_tags := [(Some [1], [2; 3])]; c_container := Some [7; 7] |}%N in
+  let c := {| k_kind := Timer; k_key := [98]; k_arg := AVecU64 [1; 2; 3];
+              k_ops := [WithTagValue [5]; WithTimestamp 5; WithSamplingRate [49]] |}%N in
+  call_hint cfg c = Some (Some 80%N) /\
+  (exists f, build cfg c = Some (inr f) /\ hint_value f = 80%N) /\
+  call_hint cfg {| k_kind := Timer; k_key := []; k_arg := AVecU64 []; k_ops := [] |} = None.
+Proof. vm_compute. split; [reflexivity|]. split; [eexists; split; reflexivity|reflexivity]. Qed.
